@@ -127,28 +127,7 @@ def generate(tier, seed, shard, nshards):
         if k % 8 == 5:
             # an element whose two terminals sit on the same node (a component bridged by a wire): it carries no voltage, a passive
             # one no current, and it must not influence the rest of the network
-            r2 = random.Random(f'{seed}/{shard}/{k}/loop')
-            nodes_ = netdesc.nodes(d)
-            for j in range(r2.randint(1, 2)):
-                n = r2.choice(nodes_)
-                kind = r2.choice(['resistor', 'conductor', 'impedance', 'admittance', 'current_source', 'current_source_lossy', 'voltage_source_lossy'])
-                b = {'id': f'loop{j}', 'n1': n, 'n2': n}
-                v = G.value(r2, 0, 3)
-                if kind == 'resistor':
-                    b.update(ctor='resistor', R=v)
-                elif kind == 'conductor':
-                    b.update(ctor='conductor', G=1 / v)
-                elif kind == 'impedance':
-                    b.update(ctor='impedance', Z=[v, -v / 3])
-                elif kind == 'admittance':
-                    b.update(ctor='admittance', Y=[1 / v, 0.2 / v])
-                elif kind == 'current_source':
-                    b.update(ctor='current_source', I=G.value(r2, -2, 0))
-                elif kind == 'current_source_lossy':
-                    b.update(ctor='current_source', I=G.value(r2, -2, 0), Y=1 / v)
-                else:
-                    b.update(ctor='voltage_source', V=G.value(r2, 0, 1), Z=v)
-                d['branches'].insert(r2.randrange(len(d['branches']) + 1), b)
+            G.add_self_loops(random.Random(f'{seed}/{shard}/{k}/loop'), d)
             yield {'stratum': 'self-loop', 'net': d}
             continue
         yield {'stratum': 'random', 'net': d}
